@@ -43,8 +43,13 @@ package best
 //@   ghost got (Array Int (Array Real Bool)) = empty
 //@   at recv respCh: ghost n = n + 1
 //@   at recv respCh: ghost got[msg.proposal][msg.score] = true
+//@   // C20: a node's goroutine is only started while both channels have room for one more message than there are
+//@   // goroutines already: as each sends exactly one message, none can block when the requester has gone
+//@   ghost nstarted Int = 0
+//@   at call go#1: assert nstarted < chancap(arg5) && nstarted < chancap(arg6)
+//@   at call go#1: ghost nstarted = nstarted + 1
 //@   loop 1
-//@     invariant opts != nil
+//@     invariant opts != nil && nstarted == nvisited()
 //@   loop 2
 //@     invariant n >= 0 && (bestProposal == nil <==> n == 0)
 //@     invariant bestProposal != nil ==> validProposal(bestProposal) && got[bestProposal][bestScore]
